@@ -125,3 +125,8 @@ _push('C13', 'Lean 4 proof (reject text = header + failed hunks parses back to e
       'Theorems writeRej_eq, C13_rej_parses, C13_no_rej_on_success. Reject files of real failing pushes (any subset of files and hunks, all failure '
       'reasons) must be byte-identical to pushSpec\'s: present exactly for failing file patches of the failing patch whose directory exists.',
       ' Known limitation (documented): two failing file patches for one file overwrite each other\'s reject (dup-entry-rej-overwrite) - mirrored by the specification, see DESIGN.md.')
+
+_push('C05', 'Lean 4 proof (forward simulation: memory cache + LIFO rollback refine the abstract patch-by-patch application; uses C04 and C11 invariants) + differential correspondence against pushSpec',
+      'Theorem C05_apply_refines for all file systems, configurations and ranges; C05_exit_and_names. Real pushes (multi-file patches, creates, '
+      'deletes, renames, mode changes, failure at any position and in any subset of files, all backup modes) must leave exactly pushSpec\'s tree, '
+      'rejects, .pc and exit status.')
